@@ -13,11 +13,13 @@ namespace BW.Proofs.Hooks
 /-- Two states of the hook closures that a new statement cannot tell apart. -/
 def SameFor (stmt : Nat) (h h' : HState) : Prop := h.enter stmt = h'.enter stmt
 def SameForB (stmt : Nat) (b b' : BState) : Prop := b.enter stmt = b'.enter stmt
+def SameForD (stmt : Nat) (a a' : DAcc) : Prop := a.enter stmt = a'.enter stmt
 
 def Sim (w w' : WState) : Prop :=
   w.stmt = w'.stmt ∧ w.working = w'.working ∧ w.pattern = w'.pattern ∧
   SameFor w.stmt w.hs w'.hs ∧ SameFor w.stmt w.hp w'.hp ∧ SameFor w.stmt w.ho w'.ho ∧
-  SameFor w.stmt w.hv w'.hv ∧ SameForB w.stmt w.hb w'.hb ∧ w.head = w'.head
+  SameFor w.stmt w.hv w'.hv ∧ SameForB w.stmt w.hb w'.hb ∧ SameForD w.stmt w.da w'.da ∧
+  w.wcc = w'.wcc ∧ w.head = w'.head
 
 theorem enter_enter (h : HState) (s : Nat) : (h.enter s).enter s = h.enter s := by
   unfold HState.enter
@@ -31,70 +33,142 @@ theorem benter_cur (b : BState) (s : Nat) : (b.enter s).cur = s := by
   unfold BState.enter
   by_cases hc : b.cur = s <;> simp [hc]
 
-/-- After a hook has run in statement `s`, its closure belongs to `s`: entering `s` again changes nothing. -/
-theorem sameFor_of_cur {stmt : Nat} {h h' : HState} (e : h = h') : SameFor stmt h h' := by rw [e]; rfl
-
 theorem wstep_sim {w w' : WState} (h : Sim w w') (e : HEv) :
     (wstep w e = none ∧ wstep w' e = none) ∨ ∃ v v', wstep w e = some v ∧ wstep w' e = some v' ∧ Sim v v' := by
-  obtain ⟨h1, h2, h3, h4, h5, h6, h7, h8, h9⟩ := h
+  obtain ⟨h1, h2, h3, h4, h5, h6, h7, h8, h9, h10, h11⟩ := h
   cases e with
-  | init => exact Or.inr ⟨_, _, rfl, rfl, h1, rfl, h3, h4, h5, h6, h7, h8, h9⟩
+  | init => exact Or.inr ⟨_, _, rfl, rfl, h1, rfl, h3, h4, h5, h6, h7, h8, h9, h10, h11⟩
   | next =>
-    refine Or.inr ⟨_, _, rfl, rfl, h1, rfl, ?_, h4, h5, h6, h7, h8, h9⟩
+    refine Or.inr ⟨_, _, rfl, rfl, h1, rfl, ?_, h4, h5, h6, h7, h8, h9, h10, h11⟩
     simp only [h2, h3]
   | orderCheck =>
     simp only [wstep]
-    rw [← h9]
+    rw [← h11]
     cases orderCheck w.head.order with
     | none => exact Or.inl ⟨rfl, rfl⟩
-    | some o => exact Or.inr ⟨_, _, rfl, rfl, h1, h2, h3, h4, h5, h6, h7, h8, rfl⟩
+    | some o => exact Or.inr ⟨_, _, rfl, rfl, h1, h2, h3, h4, h5, h6, h7, h8, h9, h10, rfl⟩
   | flushVars =>
-    refine Or.inr ⟨_, _, rfl, rfl, h1, h2, h3, h4, h5, h6, h7, h8, ?_⟩
+    refine Or.inr ⟨_, _, rfl, rfl, h1, h2, h3, h4, h5, h6, h7, h8, h9, h10, ?_⟩
     show w.head.flush = w'.head.flush
-    rw [h9]
+    rw [h11]
+  | bindType k =>
+    refine Or.inr ⟨_, _, rfl, rfl, h1, h2, h3, h4, h5, h6, h7, h8, h9, h10, ?_⟩
+    show ({ w.head with kind := k } : Head) = { w'.head with kind := k }
+    rw [h11]
+  | cInit => exact Or.inr ⟨_, _, rfl, rfl, h1, h2, h3, h4, h5, h6, h7, h8, h9, rfl, h11⟩
+  | cNext =>
+    refine Or.inr ⟨_, _, rfl, rfl, h1, h2, h3, h4, h5, h6, h7, h8, h9, rfl, ?_⟩
+    show ({ w.head with ccs := closeClause w.head.ccs w.wcc } : Head) = { w'.head with ccs := closeClause w'.head.ccs w'.wcc }
+    rw [h10, h11]
+  | cPair =>
+    simp only [wstep]
+    rw [← h10]
+    cases w.wcc with
+    | none => exact Or.inl ⟨rfl, rfl⟩
+    | some c => exact Or.inr ⟨_, _, rfl, rfl, h1, h2, h3, h4, h5, h6, h7, h8, h9, rfl, h11⟩
   | tok part tk =>
     cases part with
-    | none => exact Or.inr ⟨_, _, rfl, rfl, h1, h2, h3, h4, h5, h6, h7, h8, h9⟩
+    | none => exact Or.inr ⟨_, _, rfl, rfl, h1, h2, h3, h4, h5, h6, h7, h8, h9, h10, h11⟩
     | order =>
-      refine Or.inr ⟨_, _, rfl, rfl, h1, h2, h3, h4, h5, h6, h7, h8, ?_⟩
+      refine Or.inr ⟨_, _, rfl, rfl, h1, h2, h3, h4, h5, h6, h7, h8, h9, h10, ?_⟩
       show ({ w.head with order := orderStep w.head.order tk } : Head) = { w'.head with order := orderStep w'.head.order tk }
-      rw [h9]
+      rw [h11]
     | group =>
-      refine Or.inr ⟨_, _, rfl, rfl, h1, h2, h3, h4, h5, h6, h7, h8, ?_⟩
+      refine Or.inr ⟨_, _, rfl, rfl, h1, h2, h3, h4, h5, h6, h7, h8, h9, h10, ?_⟩
       show groupStep w.head tk = groupStep w'.head tk
-      rw [h9]
+      rw [h11]
     | inGraphs =>
       simp only [wstep]
-      rw [← h9]
+      rw [← h11]
       cases graphStep w.head tk with
       | none => exact Or.inl ⟨rfl, rfl⟩
-      | some hd => exact Or.inr ⟨_, _, rfl, rfl, h1, h2, h3, h4, h5, h6, h7, h8, rfl⟩
+      | some hd => exact Or.inr ⟨_, _, rfl, rfl, h1, h2, h3, h4, h5, h6, h7, h8, h9, h10, rfl⟩
     | limit =>
       simp only [wstep]
-      rw [← h9]
+      rw [← h11]
       cases limitStep w.head tk with
       | none => exact Or.inl ⟨rfl, rfl⟩
-      | some hd => exact Or.inr ⟨_, _, rfl, rfl, h1, h2, h3, h4, h5, h6, h7, h8, rfl⟩
+      | some hd => exact Or.inr ⟨_, _, rfl, rfl, h1, h2, h3, h4, h5, h6, h7, h8, h9, h10, rfl⟩
+    | graphs =>
+      simp only [wstep]
+      rw [← h11]
+      cases namesStep w.head.graphNames tk with
+      | none => exact Or.inl ⟨rfl, rfl⟩
+      | some l => exact Or.inr ⟨_, _, rfl, rfl, h1, h2, h3, h4, h5, h6, h7, h8, h9, h10, rfl⟩
+    | outGraphs =>
+      simp only [wstep]
+      rw [← h11]
+      cases namesStep w.head.outputs tk with
+      | none => exact Or.inl ⟨rfl, rfl⟩
+      | some l => exact Or.inr ⟨_, _, rfl, rfl, h1, h2, h3, h4, h5, h6, h7, h8, h9, h10, rfl⟩
+    | cSubj =>
+      simp only [wstep]
+      rw [← h10]
+      cases w.wcc with
+      | none => exact Or.inl ⟨rfl, rfl⟩
+      | some c =>
+        simp only [Option.bind_some]
+        cases cSubjStep c tk with
+        | none => exact Or.inl ⟨rfl, rfl⟩
+        | some c' => exact Or.inr ⟨_, _, rfl, rfl, h1, h2, h3, h4, h5, h6, h7, h8, h9, rfl, h11⟩
+    | cPred =>
+      simp only [wstep]
+      rw [← h10]
+      cases w.wcc with
+      | none => exact Or.inl ⟨rfl, rfl⟩
+      | some c =>
+        simp only [Option.bind_some]
+        cases c.wpair with
+        | none => exact Or.inl ⟨rfl, rfl⟩
+        | some p =>
+          simp only [Option.bind_some]
+          cases cPredStep p tk with
+          | none => exact Or.inl ⟨rfl, rfl⟩
+          | some p' => exact Or.inr ⟨_, _, rfl, rfl, h1, h2, h3, h4, h5, h6, h7, h8, h9, rfl, h11⟩
+    | cObj =>
+      simp only [wstep]
+      rw [← h10]
+      cases w.wcc with
+      | none => exact Or.inl ⟨rfl, rfl⟩
+      | some c =>
+        simp only [Option.bind_some]
+        cases c.wpair with
+        | none => exact Or.inl ⟨rfl, rfl⟩
+        | some p =>
+          simp only [Option.bind_some]
+          cases cObjStep p tk with
+          | none => exact Or.inl ⟨rfl, rfl⟩
+          | some p' => exact Or.inr ⟨_, _, rfl, rfl, h1, h2, h3, h4, h5, h6, h7, h8, h9, rfl, h11⟩
     | vars =>
       simp only [wstep]
       have e1 : w.hv.enter w.stmt = w'.hv.enter w'.stmt := by rw [← h1]; exact h7
-      rw [← h9, ← e1]
+      rw [← h11, ← e1]
       cases hstep : varStep w.head (w.hv.enter w.stmt).last tk with
       | none => exact Or.inl ⟨rfl, rfl⟩
       | some r =>
-        refine Or.inr ⟨_, _, rfl, rfl, h1, h2, h3, h4, h5, h6, ?_, h8, rfl⟩
-        show SameFor w.stmt _ _
-        unfold SameFor; rw [← h1]
+        refine Or.inr ⟨_, _, rfl, rfl, h1, h2, h3, h4, h5, h6, ?_, h8, h9, h10, rfl⟩
+        show _ = _
+        rw [← h1]
     | bounds =>
       simp only [wstep]
       have e1 : w.hb.enter w.stmt = w'.hb.enter w'.stmt := by rw [← h1]; exact h8
-      rw [← h9, ← e1]
+      rw [← h11, ← e1]
       cases hstep : boundsStep w.head (w.hb.enter w.stmt) tk with
       | none => exact Or.inl ⟨rfl, rfl⟩
       | some r =>
-        refine Or.inr ⟨_, _, rfl, rfl, h1, h2, h3, h4, h5, h6, h7, ?_, rfl⟩
-        show SameForB w.stmt _ _
-        unfold SameForB; rw [← h1]
+        refine Or.inr ⟨_, _, rfl, rfl, h1, h2, h3, h4, h5, h6, h7, ?_, h9, h10, rfl⟩
+        show _ = _
+        rw [← h1]
+    | data =>
+      simp only [wstep]
+      have e1 : w.da.enter w.stmt = w'.da.enter w'.stmt := by rw [← h1]; exact h9
+      rw [← h11, ← e1]
+      cases hstep : dataStep w.head.data (w.da.enter w.stmt) tk with
+      | none => exact Or.inl ⟨rfl, rfl⟩
+      | some r =>
+        refine Or.inr ⟨_, _, rfl, rfl, h1, h2, h3, h4, h5, h6, h7, h8, ?_, h10, rfl⟩
+        show _ = _
+        rw [← h1]
     | subj =>
       simp only [wstep]
       have e1 : w.hs.enter w.stmt = w'.hs.enter w'.stmt := by rw [← h1]; exact h4
@@ -102,9 +176,9 @@ theorem wstep_sim {w w' : WState} (h : Sim w w') (e : HEv) :
       cases hstep : subjStep w.working (w.hs.enter w.stmt).last tk with
       | none => exact Or.inl ⟨rfl, rfl⟩
       | some r =>
-        refine Or.inr ⟨_, _, rfl, rfl, h1, rfl, h3, ?_, h5, h6, h7, h8, h9⟩
-        show SameFor w.stmt _ _
-        unfold SameFor; rw [← h1]
+        refine Or.inr ⟨_, _, rfl, rfl, h1, rfl, h3, ?_, h5, h6, h7, h8, h9, h10, h11⟩
+        show _ = _
+        rw [← h1]
     | pred =>
       simp only [wstep]
       have e1 : w.hp.enter w.stmt = w'.hp.enter w'.stmt := by rw [← h1]; exact h5
@@ -112,9 +186,9 @@ theorem wstep_sim {w w' : WState} (h : Sim w w') (e : HEv) :
       cases hstep : predStep w.working (w.hp.enter w.stmt).last tk with
       | none => exact Or.inl ⟨rfl, rfl⟩
       | some r =>
-        refine Or.inr ⟨_, _, rfl, rfl, h1, rfl, h3, h4, ?_, h6, h7, h8, h9⟩
-        show SameFor w.stmt _ _
-        unfold SameFor; rw [← h1]
+        refine Or.inr ⟨_, _, rfl, rfl, h1, rfl, h3, h4, ?_, h6, h7, h8, h9, h10, h11⟩
+        show _ = _
+        rw [← h1]
     | obj =>
       simp only [wstep]
       have e1 : w.ho.enter w.stmt = w'.ho.enter w'.stmt := by rw [← h1]; exact h6
@@ -122,9 +196,9 @@ theorem wstep_sim {w w' : WState} (h : Sim w w') (e : HEv) :
       cases hstep : objStep w.working (w.ho.enter w.stmt).last tk with
       | none => exact Or.inl ⟨rfl, rfl⟩
       | some r =>
-        refine Or.inr ⟨_, _, rfl, rfl, h1, rfl, h3, h4, h5, ?_, h7, h8, h9⟩
-        show SameFor w.stmt _ _
-        unfold SameFor; rw [← h1]
+        refine Or.inr ⟨_, _, rfl, rfl, h1, rfl, h3, h4, h5, ?_, h7, h8, h9, h10, h11⟩
+        show _ = _
+        rw [← h1]
 
 /-- What the hooks have built, as far as it is observed. -/
 def WState.built (w : WState) : List Clause × Head := (w.pattern, w.head)
@@ -132,7 +206,7 @@ def WState.built (w : WState) : List Clause × Head := (w.pattern, w.head)
 theorem wrun_sim (evs : List HEv) : ∀ {w w' : WState}, Sim w w' →
     (wrun w evs).map WState.built = (wrun w' evs).map WState.built := by
   induction evs with
-  | nil => intro w w' h; simp only [wrun, Option.map_some, WState.built]; rw [h.2.2.1, h.2.2.2.2.2.2.2.2]
+  | nil => intro w w' h; simp only [wrun, Option.map_some, WState.built]; rw [h.2.2.1, h.2.2.2.2.2.2.2.2.2.2]
   | cons e evs ih =>
     intro w w' h
     simp only [wrun]
@@ -141,19 +215,21 @@ theorem wrun_sim (evs : List HEv) : ∀ {w w' : WState}, Sim w w' →
     · rw [a, b]; exact ih hs
 
 /-- **The hooks keep no state.** Whatever the hook closures (subject, predicate, object, projections, global
-    bounds) remember from statements parsed earlier (accepted or rejected, ended in the middle of a modifier
-    or not), what they build for a new statement — pattern clauses, projections, graphs, GROUP BY, ORDER BY,
-    LIMIT, bounds — is the same. -/
-theorem hooks_stateless (stmt : Nat) (hs hp ho hv hs' hp' ho' hv' : HState) (hb hb' : BState)
-    (h1 : hs.cur ≠ stmt) (h2 : hp.cur ≠ stmt) (h3 : ho.cur ≠ stmt) (h4 : hv.cur ≠ stmt) (h5 : hb.cur ≠ stmt)
-    (h1' : hs'.cur ≠ stmt) (h2' : hp'.cur ≠ stmt) (h3' : ho'.cur ≠ stmt) (h4' : hv'.cur ≠ stmt) (h5' : hb'.cur ≠ stmt)
+    bounds, data accumulator) remember from statements parsed earlier (accepted or rejected, ended in the
+    middle of a modifier or of a triple, or not), what they build for a new statement — pattern clauses,
+    projections, graphs, GROUP BY, ORDER BY, LIMIT, bounds, statement type, graph names, data triples,
+    construct template — is the same. -/
+theorem hooks_stateless (stmt : Nat) (hs hp ho hv hs' hp' ho' hv' : HState) (hb hb' : BState) (da da' : DAcc)
+    (h1 : hs.cur ≠ stmt) (h2 : hp.cur ≠ stmt) (h3 : ho.cur ≠ stmt) (h4 : hv.cur ≠ stmt) (h5 : hb.cur ≠ stmt) (h6 : da.cur ≠ stmt)
+    (h1' : hs'.cur ≠ stmt) (h2' : hp'.cur ≠ stmt) (h3' : ho'.cur ≠ stmt) (h4' : hv'.cur ≠ stmt) (h5' : hb'.cur ≠ stmt) (h6' : da'.cur ≠ stmt)
     (evs : List HEv) :
-    (wrun { stmt := stmt, hs := hs, hp := hp, ho := ho, hv := hv, hb := hb } evs).map WState.built =
-    (wrun { stmt := stmt, hs := hs', hp := hp', ho := ho', hv := hv', hb := hb' } evs).map WState.built := by
+    (wrun { stmt := stmt, hs := hs, hp := hp, ho := ho, hv := hv, hb := hb, da := da } evs).map WState.built =
+    (wrun { stmt := stmt, hs := hs', hp := hp', ho := ho', hv := hv', hb := hb', da := da' } evs).map WState.built := by
   apply wrun_sim
-  refine ⟨rfl, rfl, rfl, ?_, ?_, ?_, ?_, ?_, rfl⟩ <;> first
+  refine ⟨rfl, rfl, rfl, ?_, ?_, ?_, ?_, ?_, ?_, rfl, rfl⟩ <;> first
     | (unfold SameFor HState.enter; simp [*])
     | (unfold SameForB BState.enter; simp [*])
+    | (unfold SameForD DAcc.enter; simp [*])
 
 end BW.Proofs.Hooks
 
